@@ -36,6 +36,40 @@ pub const SIGMA_CORE: [&str; 20] = [
 
 pub const SIGMA_RUN: [&str; 4] = ["-TXTPP#run printf r", "-TXTPP#run printf 'r\\n'", "-TXTPP#run exit 3", "TXTPP#run true"];
 
+/// second alphabet for C01: decision points the core alphabet does not reach (tab indentation, prefixes
+/// with blanks and non-ASCII characters, `after`, temp targets in sub-directories, CRLF/mixed included files,
+/// whitespace-only lines, prefix-related tag names, an empty directive with arguments)
+pub const SIGMA_EXT: [&str; 20] = [
+    "x",
+    "",
+    "  ",
+    "\t// TXTPP#include nl.txt",
+    "\t// TXTPP#write w ",
+    "\t//",
+    "\t// v",
+    "\u{e9} TXTPP#write \u{fc}",
+    "\u{e9} y",
+    "TXTPP#after nl.txt",
+    "-TXTPP#temp sub/t2.out",
+    "-TXTPP#include crlf.txt",
+    "-TXTPP#include mixed.txt",
+    "-TXTPP#tag TU",
+    "-TXTPP#tag T",
+    "TU T TU",
+    "-TXTPP# ignored",
+    "-more",
+    "+TXTPP#include nonl.txt",
+    "-TXTPP#run cat nonl.txt",
+];
+
+pub fn helpers_ext() -> Tree {
+    let mut t = helpers();
+    tfile(&mut t, "crlf.txt", "p\r\nq\r\n");
+    tfile(&mut t, "mixed.txt", "p\nq\r\nr");
+    tfile(&mut t, "sub/keep", "k");
+    t
+}
+
 pub fn helpers() -> Tree {
     let mut t = Tree::new();
     tfile(&mut t, "nl.txt", "p\nq\n");
@@ -236,6 +270,7 @@ fn c01_case(rep: &Report, b: &Bench, src: &[u8], tn: bool, nlines: usize, steps:
     }
     let r = b.run(src, Mode::Build, true, tn);
     rep.tv(1);
+    rep.tr(1);
     compare_c01(rep, "preprocess(first pass)", src, tn, &m, &r);
     if let Ok(mf) = &m {
         for s in &mf.steps {
@@ -307,8 +342,6 @@ pub fn finish_steps(rep: &Report) {
     let v = rep.coverage.lock().unwrap().remove("set_model_steps");
     if let Some(serde_json::Value::Array(a)) = v {
         let states: BTreeSet<String> = a.iter().filter_map(|x| x.as_str()).map(|s| s.split(':').next().unwrap().to_string()).collect();
-        rep.st(states.len());
-        rep.tr(a.len());
         rep.set("model_states_visited", json!(states.len()));
         rep.set("model_transitions_visited", json!(a.len()));
     }
@@ -332,6 +365,7 @@ pub fn run_c01(tier: &str) -> i32 {
         for_each_seq(SIGMA_CORE.len(), l_core, next, &stop, &mut |seq| {
             let lines: Vec<&str> = seq.iter().map(|&i| SIGMA_CORE[i]).collect();
             rep.add("sequences_core", 1);
+            rep.st(1);
             for crlf in [false, true] {
                 for final_nl in [true, false] {
                     if lines.is_empty() && (!final_nl || crlf) {
@@ -368,6 +402,7 @@ pub fn run_c01(tier: &str) -> i32 {
             }
             let lines: Vec<&str> = seq.iter().map(|&i| alpha[i]).collect();
             rep.add("sequences_with_run", 1);
+            rep.st(1);
             for crlf in [false, true] {
                 for final_nl in [true, false] {
                     let src = build_source(&lines, crlf, final_nl);
@@ -387,6 +422,55 @@ pub fn run_c01(tier: &str) -> i32 {
         }
         publish_steps(rep, &steps);
     });
+    // phase 3: the extension alphabet (its own helper files; a temp target in a sub-directory)
+    let l_ext = if thorough { 4 } else { 3 };
+    rep.set("alphabet_ext", json!(SIGMA_EXT));
+    rep.set("bounds_ext", json!(format!("all sources of <= {l_ext} lines over the 20-symbol extension alphabet x LF/CRLF x final newline x option")));
+    let help_ext = helpers_ext();
+    sharded_dyn(&rep, par_threads(), |_k, _n, next, rep| {
+        let b = Bench::new(&help_ext);
+        let mut steps = BTreeSet::new();
+        let stop = || rep.over_cap();
+        for_each_seq(SIGMA_EXT.len(), l_ext, next, &stop, &mut |seq| {
+            let lines: Vec<&str> = seq.iter().map(|&i| SIGMA_EXT[i]).collect();
+            rep.add("sequences_ext", 1);
+            rep.st(1);
+            for crlf in [false, true] {
+                for final_nl in [true, false] {
+                    if lines.is_empty() {
+                        continue;
+                    }
+                    let src = build_source(&lines, crlf, final_nl);
+                    for tn in [true, false] {
+                        let _ = std::fs::remove_file(b.base.join("sub/t2.out"));
+                        let m = b.model(&src, tn);
+                        if matches!(&m, Err(e) if e.starts_with("out-of-domain")) {
+                            rep.add("cases_outside_domain", 1);
+                            continue;
+                        }
+                        let r = b.run(&src, Mode::Build, true, tn);
+                        rep.tv(1);
+                        rep.tr(1);
+                        rep.add("cases_compared", 1);
+                        compare_c01(rep, "preprocess(ext alphabet)", &src, tn, &m, &r);
+                        if let (Ok(mf), V::Ok) = (&m, &r.v) {
+                            let got = std::fs::read(b.base.join("sub/t2.out")).ok();
+                            if got.as_ref() != mf.temps.get("sub/t2.out") {
+                                rep.violate("temp-differs", format!("source {:?}: temp target sub/t2.out is {:?}, semantics prescribe {:?}", show(&src), got.as_ref().map(|x| show(x)), mf.temps.get("sub/t2.out").map(|x| show(x))), json!({"engine": "E-lines", "prop": "C01", "source_b64": b64(&src), "source": show(&src), "trailing_newline": tn, "extra": {"ext": true}}));
+                            }
+                            for s in &mf.steps {
+                                steps.insert(*s);
+                            }
+                        }
+                    }
+                }
+            }
+        });
+        if rep.over_cap() {
+            rep.note_cap("wall-clock cap during the extension-alphabet enumeration");
+        }
+        publish_steps(rep, &steps);
+    });
     finish_steps(&rep);
     crate::eproj::run_into(&rep);
     rep.finish()
@@ -396,7 +480,7 @@ pub fn run_c01(tier: &str) -> i32 {
 pub fn replay(v: &serde_json::Value) -> bool {
     let src = unb64(v["source_b64"].as_str().unwrap_or(""));
     let tn = v["trailing_newline"].as_bool().unwrap_or(true);
-    let b = Bench::new(&helpers());
+    let b = Bench::new(&if v["extra"]["ext"].as_bool() == Some(true) || v["extra"]["how"].as_str() == Some("preprocess(ext alphabet)") { helpers_ext() } else { helpers() });
     let rep = Report::new("C01", "quick");
     let m = b.model(&src, tn);
     for (how, mode, fp) in [("first pass", Mode::Build, true), ("final pass", Mode::Build, false), ("in-memory", Mode::InMemoryBuild, true)] {
